@@ -62,10 +62,12 @@ class OpenmlSource(Source[Iterable[Tuple[Union[MutableSequence, MutableMapping],
 
             if openml_semaphore and not self._source_already_cached():
                 openml_semaphore.acquire()
+                #we remember this at once. The check below can download (and so fail) when another
+                #process removes what it cached in between and then nobody would return the permit.
+                semaphore_acquired = True
                 if self._source_already_cached(): #pragma: no cover
                     openml_semaphore.release() #in-case another process cached everything needed while we were waiting
-                else:
-                    semaphore_acquired = True
+                    semaphore_acquired = False
 
             if self._data_id:
                 data_descr   = self._get_data_descr(self._data_id)
